@@ -892,13 +892,23 @@ func endToEnd(r *rand.Rand, out *bufio.Writer, seed int64, n int) {
 	for _, d := range defs {
 		plugin.RW = append(plugin.RW, fakes.RWPath("/c/"+d.name, d.vt, false, "", d.opts...))
 	}
-	e := env.New(0, plugin)
-	e.Topo.AddTarget("t1", "devicesim", "1.0.0", false, false)
-	e.StartControllers(false)
-	defer e.StopControllers()
+	var e *env.Env
+	defer func() {
+		if e != nil {
+			e.StopControllers()
+		}
+	}()
 	cfgID := configuration.NewID("t1", "devicesim", "1.0.0")
 
 	for i := 0; i < n; i++ {
+		if i%10 == 0 { // a fresh instance now and then: the controllers' work grows with the length of the transaction log
+			if e != nil {
+				e.StopControllers()
+			}
+			e = env.New(0, plugin)
+			e.Topo.AddTarget("t1", "devicesim", "1.0.0", false, false)
+			e.StartControllers(false)
+		}
 		d := defs[(i+int(seed))%len(defs)]
 		if r.Intn(4) == 0 {
 			d = env.Pick(r, defs)
